@@ -16,7 +16,7 @@ def run(tier, replay):
         # lock contests cost 5 s each (SQLite busy timeout): run them first, concurrently, one per core
         nl = 4 if not th else 16
         ml = ec.run_profile(chk, binp, "c03l", nl, sd, label="lock")
-        m = ec.run_profile(chk, binp, "c03", 3200 if not th else 60000, sd, thorough=th)
+        m = ec.run_profile(chk, binp, "c03", 3200 if not th else 30000, sd, thorough=th)
         mv = ec.run_profile(chk, binp, "c03v", 288 if not th else 288 * 8, sd, label="ver")
         ec.fold(chk, m, KEYS)
         chk.cov["version_scenarios"] = int(mv.get("cases", 0))
